@@ -39,7 +39,7 @@ func Run(c *engine.Ctx) {
 			c.Case(func() any { return pairDesc{A: A, B: B} }, func(t *engine.T) *engine.Violation { return pairCase(t, A, B) })
 		}
 	}
-	for _, fam := range []string{"collisions", "near-ids", "edge-types", "wide"} {
+	for _, fam := range []string{"collisions", "near-ids", "edge-types", "empty-targets", "wide"} {
 		F := c09.Lists(c.Thorough(), fam)
 		c.Group(fam)
 		c.Bound(fam, fmt.Sprintf("all %d x %d ordered pairs of the %s family", len(F), len(F), fam))
@@ -52,6 +52,28 @@ func Run(c *engine.Ctx) {
 	}
 	attrCube(c)
 	nearVersions(c)
+	c.Group("attr-wide")
+	for _, n := range []int{3, 6, 13, 20, 100, 515} {
+		n := n
+		c.Case(func() any { return map[string]int{"nodes-per-operand": n} }, func(t *engine.T) *engine.Violation {
+			A, B := c09.WideAttrOperands(n)
+			x := A.Intersect(B)
+			t.Transitions(1)
+			t.Validated(1)
+			if len(x.Nodes) != n {
+				return engine.Violate("intersect-nodes", "wide", "intersection of two %d-node lists over the same identifiers has %d nodes", n, len(x.Nodes))
+			}
+			for _, bn := range B.Nodes {
+				xn := x.GetNodeByID(bn.Id)
+				if xn == nil || xn.Name != bn.Name || xn.Version != bn.Version || xn.Hashes[1] != bn.Hashes[1] {
+					return engine.Violate("intersect-precedence", "wide", "%d nodes per operand: node %s does not carry the second operand's values in the intersection", n, bn.Id)
+				}
+			}
+			t.State(fmt.Sprint("attr-wide", n))
+			t.Outcome("attr-wide-ok")
+			return nil
+		})
+	}
 	sameRuleAsUnion(c)
 }
 
